@@ -44,7 +44,7 @@ var c37Assumptions = []string{
 	"FULLTEXT, SPATIAL and VECTOR indexes are not generated",
 	"tables hold no rows (tags and serialization do not depend on data)",
 	"while finding " + c37FindVirtualAdd + " is listed open, CHECK and table COMMENT fragments are not expected in SHOW CREATE TABLE once the table has a VIRTUAL generated column (skipped expectations are counted as excluded_known); the pinned sub-test reports it",
-	"because the in-process schema is itself read from storage, loss of an attribute is checked against the written DDL: right after a statement SHOW CREATE TABLE must contain its ON UPDATE / GENERATED / DEFAULT (function) / COLLATE / AUTO_INCREMENT / COMMENT (texts without quotes or backslashes) / index, check and foreign key fragments (case-insensitive substring match)",
+	"because the in-process schema is itself read from storage, loss of an attribute is checked against the written DDL: right after a statement SHOW CREATE TABLE must contain its ON UPDATE / GENERATED / DEFAULT (function) / table COLLATE / AUTO_INCREMENT / COMMENT (texts without quotes or backslashes) / index, check and foreign key fragments (case-insensitive substring match)",
 	"columns named by a CHECK constraint or by a generated column's expression are never renamed, retyped or dropped (dolt accepts e.g. CHANGE COLUMN of a column a CHECK refers to and leaves a table that SHOW CREATE TABLE cannot render; a DDL validation gap outside this property)",
 }
 
@@ -488,11 +488,6 @@ func c37GenColSpec(rt *rapid.T, m *c37Model, class string, allowGen bool) c37Spe
 		opts += " COMMENT " + c37Quote(cm)
 		if c37SafeComment(cm) {
 			sp.Expect = append(sp.Expect, "comment '"+strings.ToLower(cm)+"'")
-		}
-	}
-	if sp.Coll {
-		if i := strings.Index(typ, "COLLATE "); i >= 0 {
-			sp.Expect = append(sp.Expect, "collate "+strings.ToLower(strings.Fields(typ[i+8:])[0]))
 		}
 	}
 	sp.SQL = typ + opts
